@@ -508,6 +508,25 @@ def rule_relax_agree(crate, prop, tier):
             def reached(rel):
                 return any(a[0] == "ne" and ("const", "isize", IMAX) in a[1:] for a in rel.w)
             o.check(fx.holds(bb, reached), WHO, "R4-unreached-guard", "the final pass does not skip unreached tails", sp)
+            # nothing else may stand between an improvable arc and the report
+            from .schema import extra_conditions
+
+            class _T:
+                pass
+            t_ = _T()
+            t_.an, t_.fx = an, fx
+
+            def allowed(a):
+                if a[0] == "ne" and ("const", "isize", IMAX) in a[1:]:
+                    return True
+                if a[0] in ("lt", "le") and sum_parts(a[1]) and a[2][0] == "mem":
+                    return True
+                if a[0] in ("lt", "le") and (a[1][0] == "len" or a[2][0] == "len"):
+                    return True
+                return False
+            extra = extra_conditions(t_, {"ev": dev}, bb, allowed)
+            o.check(not extra, WHO, "R4-detection-condition", "a negative circuit is reported only under a further condition (%s): an improvable "
+                    "arc that does not meet it goes unreported" % ", ".join(str(a[0]) for a in extra[:3]), sp)
         for bb, t, sp in somes:
             o.check(fx.holds(bb, lambda rel: rel.variant(dev["res"]) == "None"), WHO, "R4-some-after-full-pass",
                     "Some(distances) is returned before the final pass has examined every arc", sp)
